@@ -56,6 +56,19 @@ theorem iri_relative_to_total_partial (a b : Text) (ha8 : ∀ c ∈ a, c < 256) 
   relative_to_total_valid_partial Lemmas.iriGB Lemmas.iriGB_ok Lemmas.iriGB_okPath Lemmas.iriGB_okAuth Lemmas.iriGB_okWE a b
     (Valid.iriRef_octets a ha8 ha) (Valid.iriRef_octets b hb8 hb)
 
+/-- … and the result is something the constructors of the same family accept -/
+theorem uri_relative_to_accepted_partial (a b : Text) (ha8 : ∀ c ∈ a, c < 256) (hb8 : ∀ c ∈ b, c < 256)
+    (ha : accepts .uriRef a = true) (hb : accepts .uriRef b = true) :
+    ∃ r, Ref.relative_to a b = some r ∧ accepts .uriRef r = true := by
+  obtain ⟨r, e, hv⟩ := uri_relative_to_total_partial a b ha8 hb8 ha hb
+  exact ⟨r, e, Valid.uriRef_of_octets r hv⟩
+
+theorem iri_relative_to_accepted_partial (a b : Text) (ha8 : ∀ c ∈ a, c < 256) (hb8 : ∀ c ∈ b, c < 256)
+    (ha : accepts .iriRef a = true) (hb : accepts .iriRef b = true) :
+    ∃ r, Ref.relative_to a b = some r ∧ accepts .iriRef r = true := by
+  obtain ⟨r, e, hv⟩ := iri_relative_to_total_partial a b ha8 hb8 ha hb
+  exact ⟨r, e, Valid.iriRef_of_octets r hv⟩
+
 /-- negative witnesses of F12 on the model (and, by correspondence, on the code) -/
 example : Findings.f12 [0x73, 0x3A] [0x73, 0x3A, 0x2F, 0x2F, 0x68, 0x2F, 0x61] = true := by decide
 example : Findings.f12 [0x73, 0x3A, 0x2F] [0x73, 0x3A, 0x2F, 0x61] = true := by decide
